@@ -17,10 +17,12 @@ KNOWN = {}
 class Injector:
     """Monkey-patches misc.kkt_ldl (the solvers are called with kktsolver='ldl') so that factor/solve calls are
     logged and the `fail_at`-th event raises ArithmeticError once."""
-    def __init__(self, fail_at=None):
+    def __init__(self, fail_at=None, also=None):
         self.events = []          # ('factor'|'solve', n_factor_calls_so_far)
         self.fail_at = fail_at
+        self.also = also          # optional second event index that fails as well (the retry after a restore)
         self.fired = False
+        self.fired2 = False
         self.nfactor = 0
         self.on_factor = None     # optional observer of the arguments of every factor call (used by C07 'restore')
 
@@ -30,6 +32,9 @@ class Injector:
         if self.fail_at is not None and idx == self.fail_at and not self.fired:
             self.fired = True
             raise ArithmeticError("injected failure in %s call (event %d)" % (kind, idx))
+        if self.also is not None and idx == self.also and self.fired and not self.fired2:
+            self.fired2 = True
+            raise ArithmeticError("injected failure in %s call (event %d, second failure)" % (kind, idx))
 
     def __enter__(self):
         J = self
@@ -205,6 +210,25 @@ def check_unknown(case, mat, sol, it_e, where):
                 msgs.append("field 'gap' = %r smaller than the gap %r of the returned vectors" % (rep, gap))
         elif not judge.isnum(rep) or not judge.close(rep, gap, sc):
             msgs.append("field 'gap' = %r but recomputed %r" % (rep, gap))
+        if solver == "cpl":
+            # "'primal objective', 'dual objective' ... give the primal objective c'x, the dual objective, calculated as
+            # c'x + znl'f(x) + zl'(Gx - h) + y'(Ax - b)": recomputed from the returned vectors and the caller's data
+            n = mat["n"]
+            xv = rc.vec(sol["x"])
+            yv = rc.vec(sol["y"]) if sol.get("y") is not None else np.zeros(0)
+            Pq = mat["P"] + 0.5 * np.eye(n)
+            r_ = 0.5 * float(mat["x0"] @ Pq @ mat["x0"]) + 1.0
+            fx = np.array([0.5 * float(xv @ Pq @ xv) - r_])
+            Gs, hs = mat["Gs"], mat["hs"]
+            pc = float(mat["q"] @ xv)
+            dc = pc + float(znl @ fx) + rc.sdot(zl, Gs @ xv - hs, dims) + (float(yv @ (mat["A"] @ xv - mat["b"])) if len(yv) else 0.0)
+            sc1 = judge.nrm(mat["q"]) * judge.nrm(xv) + 1.0
+            sc2 = sc1 + judge.nrm(znl) * (abs(float(fx[0])) + 1.0) + judge.nrm(zl) * (judge.nrm(Gs @ xv) + judge.nrm(hs)) + \
+                judge.nrm(yv) * (judge.nrm(mat["A"] @ xv) + judge.nrm(mat["b"]) if len(yv) else 0.0)
+            for name, val, sc_ in (("primal objective", pc, sc1), ("dual objective", dc, sc2)):
+                rep = sol.get(name)
+                if not judge.isnum(rep) or not judge.close(rep, val, sc_):
+                    msgs.append("field %r = %r but the returned vectors give %r" % (name, rep, val))
         # slack fields: smallest margin of (snl, sl) resp. (znl, zl) to the boundary of the cone
         for name, nl, lin in (("primal slack", snl, sl), ("dual slack", znl, zl)):
             parts = ([float(nl.min())] if len(nl) else []) + ([rc.min_slack(lin, dims)] if rc.cdim(dims) else [])
@@ -240,16 +264,23 @@ def oracle(case, stats=None):
         return
     events = list(base.events)
     nontriv = 0
-    for k in range(len(events)):
+    plan = [(k, None) for k in range(len(events))]
+    if solver in ("cpl", "cp"):
+        # cpl restores a saved iterate and factors again when a factorization fails during a series of relaxed line
+        # searches: the factorization of the retry (the next event of that run) is made to fail as well
+        plan += [(k, k + 1) for k in range(len(events)) if events[k][0] == "factor" and event_iteration(case, events, k) >= 1]
+    for (k, k2) in plan:
         it_e = event_iteration(case, events, k)
         ekind = events[k][0]
-        with Injector(k) as inj:
+        with Injector(k, k2) as inj:
             kind, res = run_instance(case, mat, inj)
         if not inj.fired:
             raise Violation("non-deterministic solve: event %d of the fault-free run was not reached" % k)
-        where = "%s: ArithmeticError injected into KKT %s call #%d (iteration %s)" % (
-            solver, ekind, k, "start-up" if it_e < 0 else it_e)
-        lab = "%s:%s:%s" % (solver, ekind, "startup" if it_e < 0 else ("it0" if it_e == 0 else "it>=1"))
+        if k2 is not None and not inj.fired2:
+            continue            # no retry took place: same run as the single failure
+        where = "%s: ArithmeticError injected into KKT %s call #%d (iteration %s)%s" % (
+            solver, ekind, k, "start-up" if it_e < 0 else it_e, " and into the retry that follows it" if k2 is not None else "")
+        lab = "%s:%s:%s%s" % (solver, ekind, "startup" if it_e < 0 else ("it0" if it_e == 0 else "it>=1"), ":retry_fails_too" if k2 is not None else "")
         if kind == "raised":
             e = res
             if isinstance(e, ValueError) and "Rank" in str(e):
@@ -380,7 +411,79 @@ def domain_oracle(case, stats=None):
                                                     "status:" + st_, "refused" if log["refused"] else "never_refused"])
 
 
+# ------------------------------------------------------------------ part "restore": failures around cpl's restore-and-retry
+
+def restore_oracle(case, stats=None):
+    """Steep exponential constraints (the family of C07's 'restore' part) make cpl take relaxed steps; a failed
+    factorization during such a series sends it back to the saved iterate, where it factors again.  Every factorization k
+    of the fault-free run is made to fail together with the one that follows it in that run (the retry): cpl must
+    return 'unknown' whose accuracy fields describe the iterate it returns."""
+    from checks import c07
+    case = dict(case, form="cpl")
+    pr = c07.restore_problem(case)
+    F, cm, Gm, hm, dims, n = pr["F"], pr["cm"], pr["Gm"], pr["hm"], pr["dims"], pr["n"]
+
+    def run(fail):
+        cnt = [0]
+        factor = misc.kkt_ldl(Gm, dims, matrix(0.0, (0, n)), 1)
+
+        def kktsolver(x, z, W):
+            f, Df, H = F(x, z)
+            k = cnt[0]
+            cnt[0] += 1
+            if k in fail:
+                raise ArithmeticError("injected failure in factorization %d" % k)
+            return factor(W, H, Df)
+        try:
+            return solvers.cpl(cm, F, Gm, hm, dims, kktsolver=kktsolver, options={"show_progress": False}), cnt[0]
+        except Exception as e:        # noqa: judged below
+            return e, cnt[0]
+    base, nfac = run(())
+    if isinstance(base, Exception):
+        if stats is not None:
+            stats.evaluated(case, False, ["restore:fault_free_run_raised"])
+        return
+    doubles = 0
+    for k in range(1, min(nfac, 30)):
+        sol, reached = run((k, k + 1))
+        if reached <= k + 1:
+            continue                     # no retry: the single failure is judged by the 'faults' part
+        where = "cpl: ArithmeticError injected into factorization #%d and into the retry that follows the restore" % k
+        if isinstance(sol, Exception):
+            raise Violation("%s -> %s escaped from the solver: %s" % (where, type(sol).__name__, sol))
+        if sol["status"] != "unknown":
+            continue                     # the solver went on (a further restore) and finished: judged by C04
+        doubles += 1
+        x = rc.vec(sol["x"])
+        sl, zl = rc.vec(sol["sl"]), rc.vec(sol["zl"])
+        snl, znl = rc.vec(sol["snl"]), rc.vec(sol["znl"])
+        msgs = []
+        if not (rc.min_slack(sl, dims) > 0 and rc.min_slack(zl, dims) > 0 and snl.min() > 0 and znl.min() > 0):
+            msgs.append("returned s, z not strictly inside the cone")
+        fx = np.array([float(np.sum(np.exp(pr["K"] * (pr["Aa"] @ x))) - pr["rhs"])])
+        pc = float(pr["c"] @ x)
+        Gs, hs = rc.symcols(pr["G"], dims), rc.symvec(pr["h"], dims)
+        dc = pc + float(znl @ fx) + rc.sdot(zl, Gs @ x - hs, dims)
+        gap = float(snl @ znl) + rc.sdot(sl, zl, dims)
+        sc = 1.0 + judge.nrm(pr["c"]) * judge.nrm(x)
+        sc2 = sc + judge.nrm(znl) * (abs(float(fx[0])) + 1.0) + judge.nrm(zl) * (judge.nrm(Gs @ x) + judge.nrm(hs))
+        for name, val, s_ in (("primal objective", pc, sc), ("dual objective", dc, sc2),
+                              ("gap", gap, judge.nrm(sl) * judge.nrm(zl) + judge.nrm(snl) * judge.nrm(znl))):
+            rep = sol.get(name)
+            if not judge.isnum(rep) or not judge.close(rep, val, s_):
+                msgs.append("field %r = %r but the returned vectors give %r" % (name, rep, val))
+        if msgs:
+            raise Violation("%s -> 'unknown' but %s" % (where, "; ".join(msgs[:3])))
+    if stats is not None:
+        stats.evaluated(case, doubles > 0, ["restore", "double_failures_judged:%d" % min(doubles, 5)])
+        stats.extra["restore_double_failures"] = stats.extra.get("restore_double_failures", 0) + doubles
+
+
 def search(ctx, stats):
+    if ctx.part == "restore":
+        from checks import c07
+        v = run_given(c07.restore_case(), lambda c: restore_oracle(c, stats), ctx.seed, ctx.n(200, 5000), stats)
+        return [v] if v else []
     for k in KNOWN:
         KNOWN[k] = ctx.known_active(k)
     if ctx.part == "domain":
@@ -391,6 +494,12 @@ def search(ctx, stats):
 
 
 def replay(case, part):
+    if part == "restore":
+        try:
+            restore_oracle(case)
+        except Violation as v:
+            return v.msg
+        return None
     try:
         (domain_oracle if part == "domain" else oracle)(case)
     except Violation as v:
